@@ -15,7 +15,7 @@ import (
 
 func init() {
 	register("C07", propMeta{
-		Explanation: "E-GUARD + E-PROV + E-TAINT + E-CONST. O-1 sink wiring: in each of the five main packages every log.SetOutput(x) whose x is not directly a *safelog.LogScrubber is reachable only through the true edge of the unsafe-logging flag, and a SetOutput(&LogScrubber{...}) exists on the complementary edge; every log.New in non-test code is one of two listed rows (broker metrics logger, proxy periodic summary) whose use is confined to functions that print counts and units. O-2 the writer emits only scrubbed complete lines: in LogScrubber.Write every Output.Write argument is Scrub(buffer[:LastIndexByte(buffer, '\\n')+1]), reachable only when a newline was found; the remainder kept is the suffix after that index; the buffer is accessed only under the scrubber's mutex. O-3 events are scrubbed before leaving through the PT log: in package event every error.Error() value used by a String() method flows only into safelog.Scrub; the client's PT log receives only e.String(). O-4 delimiter consumption: the address pattern (constant-folded by the type checker, parsed with regexp/syntax) has delimiter groups on both sides; if some rune can be consumed by the right delimiter and is required by the left one, a driver that replaces non-overlapping matches in a single pass necessarily skips the second of two addresses separated by that rune, so such a driver must iterate to a fixpoint (call inside a loop whose exit is the equality of input and output). O-5 address-form table (E-CONST): the address pattern constant, compiled by the checker itself, matches each entry of a table of address spellings (every form class Go's net package prints or accepts: dotted IPv4, full, compressed and IPv4-embedded IPv6, bracketed and with ports) placed between delimiters. O-5 evaluates a constant of the source against a table; no repository code is executed. Added after the third seeding round: loggers and writers obtained in package initialisers (log.New(log.Writer(), ...)) are enumerated as well, since they are taken before main installs the scrubber; the lazily compiled pattern table falls under the shared-state rule. Added after the fifth seeding round: the variable behind -unsafe-logging is set by no flag of another name; the address-form table is also tried directly after '/', '-', '@' and a quote; the metrics logger may be used by any function all of whose callers belong to the periodic report.",
+		Explanation: "E-GUARD + E-PROV + E-TAINT + E-CONST. O-1 sink wiring: in each of the five main packages every log.SetOutput(x) whose x is not directly a *safelog.LogScrubber is reachable only through the true edge of the unsafe-logging flag, and a SetOutput(&LogScrubber{...}) exists on the complementary edge; every log.New in non-test code is one of two listed rows (broker metrics logger, proxy periodic summary) whose use is confined to functions that print counts and units. O-2 the writer emits only scrubbed complete lines: in LogScrubber.Write every Output.Write argument is Scrub(buffer[:LastIndexByte(buffer, '\\n')+1]), reachable only when a newline was found; the remainder kept is the suffix after that index; the buffer is accessed only under the scrubber's mutex. O-3 events are scrubbed before leaving through the PT log: in package event every error.Error() value used by a String() method flows only into safelog.Scrub; the client's PT log receives only e.String(). O-4 delimiter consumption: the address pattern (constant-folded by the type checker, parsed with regexp/syntax) has delimiter groups on both sides; if some rune can be consumed by the right delimiter and is required by the left one, a driver that replaces non-overlapping matches in a single pass necessarily skips the second of two addresses separated by that rune, so such a driver must iterate to a fixpoint (call inside a loop whose exit is the equality of input and output). O-5 address-form table (E-CONST): the address pattern constant, compiled by the checker itself, matches each entry of a table of address spellings (every form class Go's net package prints or accepts: dotted IPv4, full, compressed and IPv4-embedded IPv6, bracketed and with ports) placed between delimiters. O-5 evaluates a constant of the source against a table; no repository code is executed. Added after the third seeding round: loggers and writers obtained in package initialisers (log.New(log.Writer(), ...)) are enumerated as well, since they are taken before main installs the scrubber; the lazily compiled pattern table falls under the shared-state rule. Added after the fifth seeding round: the variable behind -unsafe-logging is set by no flag of another name; the address-form table is also tried directly after '/', '-', '@' and a quote; the metrics logger may be used by any function all of whose callers belong to the periodic report. Added after the sixth seeding round and the mutation audit: in each main no path reaches the first go statement or a return without having called log.SetOutput (or ends the process): the default output of package log is the raw standard error stream.",
 		NotDecided:  "coverage of the address grammar beyond the table's form classes (language inclusion is not decided), addresses adjacent to ':' or word characters (excluded by the statement), interleaving of concurrent writers beyond mutual exclusion.",
 		Assumptions: []string{"regexp.ReplaceAll* replace non-overlapping matches left to right", "log output of the standard logger is one Write per message"},
 	}, runC07)
@@ -81,6 +81,49 @@ func runC07(c *Ctx) {
 			}
 		}
 		c.check(nSafe >= 1, rule1, rel+" installs the scrubber", p.Pos(mainFn.Pos()), "", "no log.SetOutput(&safelog.LogScrubber{...}) in main")
+		// and no path leaves the set-up without having installed an output: the default output of package log
+		// is the raw standard error stream
+		{
+			setBlocks := map[*ssa.BasicBlock]bool{}
+			for _, ci := range callsTo(mainFn, "log.SetOutput") {
+				setBlocks[ci.Block()] = true
+			}
+			var escape ssa.Instruction
+			seen := map[*ssa.BasicBlock]bool{}
+			var walk func(b *ssa.BasicBlock)
+			walk = func(b *ssa.BasicBlock) {
+				if seen[b] || setBlocks[b] || escape != nil {
+					return
+				}
+				seen[b] = true
+				for _, in := range b.Instrs {
+					switch x := in.(type) {
+					case *ssa.Go:
+						escape = in
+					case *ssa.Return:
+						escape = in
+					case *ssa.Call:
+						if exitCallees[calleeName(x)] {
+							return // log.Fatal, os.Exit: the process ends here
+						}
+					}
+					if escape != nil {
+						return
+					}
+				}
+				for _, sb := range b.Succs {
+					walk(sb)
+				}
+			}
+			if len(mainFn.Blocks) > 0 && len(setBlocks) > 0 {
+				walk(mainFn.Blocks[0])
+				if escape != nil {
+					c.viol(rule1, rel+" installs a log output on every path", p.instrPos(escape), "main goes on (starts a goroutine or returns) on a path that called log.SetOutput nowhere: on that path the log is written, unscrubbed, to the default output (standard error, which tor copies into its own log)")
+				} else {
+					c.ok(rule1, rel+" installs a log output on every path", p.Pos(mainFn.Pos()), "every path to the first go statement or return passes log.SetOutput or ends the process")
+				}
+			}
+		}
 	}
 	// log.New rows
 	rows := map[string]string{
